@@ -4,3 +4,4 @@ Definition k_flow_writer_write_enumerated : pfun :=
      pf_body := [
     SExpr (PMeth "extend" (PAttr (PName "self") "_data") [(PCall "_pack_asn1_enumerated/tag" [(PName "value"); (PName "tag")])])
   ] |}.
+Definition k_flow_writer_write_enumerated_defaults : list (string * pexp) := [("tag", PNone)].
